@@ -596,6 +596,15 @@ class Engine:
 
     def op_move(self, op):
         n = self.pick_any(("object", "group"))
+        objs = [o for o in self.model.of_kind("object") if o.uid != n.uid]
+        if objs and not self.script and self.rng.random() < 0.1:
+            # an object is not a place for groups or objects: the assignment is not taken (the library warns) and nothing moves
+            o = self.rng.choice(objs)
+            op.update(cls=n.cls, target=n.uid, to=o.uid, frm=n.parent, expect="not-taken")
+            op["op"] = "move_under_object"
+            self.ent(n.uid).parent = self.ent(o.uid)
+            self.rec.see("moves-under-an-object-not-taken")
+            return
         targets = [self.model.root] + [g.uid for g in self.model.of_kind("group")]
         targets = [t for t in targets if t != n.parent and not self.model.is_descendant(t, n.uid)]
         if self.rng.random() < 0.15:
